@@ -52,6 +52,8 @@ StringDictionaryPFC::StringDictionaryPFC(IteratorDictString *it,
     this->bucketsize = 2;
   } else
     this->bucketsize = bucketsize;
+  // (the construction below must also use the corrected value)
+  bucketsize = this->bucketsize;
 
   this->buckets = 0;
   this->bytesStrings = 0;
